@@ -96,7 +96,8 @@ Qed.
 
 Lemma bs_step g q res : uq_step g q UNorm res cBS = Some (q, UEsc, res).
 Proof.
-  unfold uq_step. assert (E : is_quote_char cBS = false) by reflexivity. rewrite E. cbn [andb].
+  unfold uq_step. assert (E0 : (cBS =? 0) = false) by reflexivity. rewrite E0.
+  assert (E : is_quote_char cBS = false) by reflexivity. rewrite E. cbn [andb].
   rewrite N.eqb_refl. reflexivity.
 Qed.
 
@@ -149,10 +150,10 @@ Proof.
   intros Hk pw d r HB. induction HB as [pw|pw c d r Hl HB IH|pw c sp d r He HB IH]; intros res rest.
   - rewrite app_nil_r. reflexivity.
   - cbn [app]. rewrite run_cons.
-    assert (Hc : (c =? qc) = false /\ (c =? cBS) = false).
-    { destruct Hk as [[-> ->]|[-> ->]]; cbn [lit_ok] in Hl; apply andb_true_iff in Hl; destruct Hl as [A B];
-        apply negb_true_iff in A, B; auto. }
-    destruct Hc as [Hq Hb]. unfold uq_step. cbn [negb orb]. rewrite andb_false_r, Hb, Hq.
+    assert (Hc : (c =? 0) = false /\ (c =? qc) = false /\ (c =? cBS) = false).
+    { destruct Hk as [[-> ->]|[-> ->]]; cbn [lit_ok] in Hl; apply andb_true_iff in Hl; destruct Hl as [Hl B];
+        apply andb_true_iff in Hl; destruct Hl as [Z A]; apply negb_true_iff in Z, A, B; auto. }
+    destruct Hc as (Hz & Hq & Hb). unfold uq_step. rewrite Hz. cbn [negb orb]. rewrite andb_false_r, Hb, Hq.
     rewrite IH. rewrite <- app_assoc. reflexivity.
   - rewrite <- app_assoc. rewrite (esc_run c sp He). rewrite IH. rewrite <- app_assoc. reflexivity.
 Qed.
@@ -164,22 +165,23 @@ Proof.
   intros pw d r HB. induction HB as [pw|pw c d r Hl HB IH|pw c sp d r He HB IH]; intros res rest Hpw.
   - rewrite app_nil_r. reflexivity.
   - cbn [app]. rewrite run_cons. cbn [lit_ok] in Hl.
-    apply andb_true_iff in Hl. destruct Hl as [Hl Hqp]. apply andb_true_iff in Hl. destruct Hl as [Hb Hw].
-    apply negb_true_iff in Hb, Hw.
+    apply andb_true_iff in Hl. destruct Hl as [Hl Hqp]. apply andb_true_iff in Hl. destruct Hl as [Hl Hw].
+    apply andb_true_iff in Hl. destruct Hl as [Hz Hb].
+    apply negb_true_iff in Hz, Hb, Hw.
     assert (Hopen : is_quote_char c && at_item_start res = false).
     { change (is_quote_char c) with (is_q c). apply orb_true_iff in Hqp. destruct Hqp as [Hq|Hp].
       - apply negb_true_iff in Hq. rewrite Hq. reflexivity.
       - apply negb_true_iff in Hp. rewrite (Hpw Hp). apply andb_false_r. }
-    unfold uq_step. rewrite Hopen. cbn [andb]. rewrite Hb.
+    unfold uq_step. rewrite Hz, Hopen. cbn [andb]. rewrite Hb.
     rewrite IH by (intros _; rewrite at_start_snoc; exact Hw). rewrite <- app_assoc. reflexivity.
   - rewrite <- app_assoc. rewrite (esc_run c sp He).
     rewrite IH by (intros E; rewrite at_start_snoc; exact E). rewrite <- app_assoc. reflexivity.
 Qed.
 
-Lemma ws_not_quote c : is_ws3 c = true -> is_quote_char c = false /\ (c =? cBS) = false.
+Lemma ws_not_quote c : is_ws3 c = true -> is_quote_char c = false /\ (c =? cBS) = false /\ (c =? 0) = false.
 Proof.
   unfold is_ws3, is_quote_char, cDQ, cSQ, cBS. intros H.
-  repeat (apply orb_true_iff in H; destruct H as [H|H]); apply N.eqb_eq in H; subst; split; reflexivity.
+  repeat (apply orb_true_iff in H; destruct H as [H|H]); apply N.eqb_eq in H; subst; repeat split; reflexivity.
 Qed.
 
 Lemma spells_run : forall b d r, Spells_at b d r -> forall res, (b = true -> at_item_start res = true) ->
@@ -188,16 +190,16 @@ Proof.
   intros b d r H. induction H as [b|b c d r Hw H IH|body rb d r HB H IH|body rb d r HB H IH|b body rb d r Hne HB H IH];
     intros res Hs.
   - cbn. rewrite app_nil_r. reflexivity.
-  - rewrite run_cons. destruct (ws_not_quote c Hw) as [Hq Hb]. unfold uq_step. rewrite Hq. cbn [andb]. rewrite Hb.
+  - rewrite run_cons. destruct (ws_not_quote c Hw) as (Hq & Hb & Hz). unfold uq_step. rewrite Hz, Hq. cbn [andb]. rewrite Hb.
     rewrite IH by (intros _; rewrite at_start_snoc; exact Hw). rewrite <- app_assoc. reflexivity.
-  - rewrite run_cons. unfold uq_step at 1. change (is_quote_char cDQ) with true. rewrite (Hs eq_refl). cbn [andb negb orb].
+  - rewrite run_cons. unfold uq_step at 1. change (cDQ =? 0) with false. cbn iota. change (is_quote_char cDQ) with true. rewrite (Hs eq_refl). cbn [andb negb orb].
     rewrite (body_quoted CDQ cDQ (or_introl (conj eq_refl eq_refl)) true body rb HB).
-    rewrite run_cons. unfold uq_step at 1. cbn [negb orb]. rewrite andb_false_r.
+    rewrite run_cons. unfold uq_step at 1. change (cDQ =? 0) with false. cbn iota. cbn [negb orb]. rewrite andb_false_r.
     change (cDQ =? cBS) with false. cbn iota. rewrite N.eqb_refl.
     rewrite IH by discriminate. rewrite <- app_assoc. reflexivity.
-  - rewrite run_cons. unfold uq_step at 1. change (is_quote_char cSQ) with true. rewrite (Hs eq_refl). cbn [andb negb orb].
+  - rewrite run_cons. unfold uq_step at 1. change (cSQ =? 0) with false. cbn iota. change (is_quote_char cSQ) with true. rewrite (Hs eq_refl). cbn [andb negb orb].
     rewrite (body_quoted CSQ cSQ (or_intror (conj eq_refl eq_refl)) true body rb HB).
-    rewrite run_cons. unfold uq_step at 1. cbn [negb orb]. rewrite andb_false_r.
+    rewrite run_cons. unfold uq_step at 1. change (cSQ =? 0) with false. cbn iota. cbn [negb orb]. rewrite andb_false_r.
     change (cSQ =? cBS) with false. cbn iota. rewrite N.eqb_refl.
     rewrite IH by discriminate. rewrite <- app_assoc. reflexivity.
   - rewrite (body_bare true body rb HB res r) by discriminate.
@@ -208,9 +210,11 @@ Theorem spellings_read_back s raw : Spells s raw -> unquote_value raw = Some s.
 Proof. intros H. unfold unquote_value. rewrite (spells_run true s raw H []); auto. Qed.
 
 (* ---- every string has a spelling ---- *)
-Lemma dq_body s : forall pw, Body CDQ pw s (flat_map dq_char s).
+Lemma dq_body s : ~ In 0 s -> forall pw, Body CDQ pw s (flat_map dq_char s).
 Proof.
-  induction s as [|c s IH]; intros pw; [constructor|].
+  induction s as [|c s IH]; intros Hnz pw; [constructor|].
+  assert (Hc0 : (c =? 0) = false) by (apply N.eqb_neq; intros ->; apply Hnz; left; reflexivity).
+  specialize (IH (fun X => Hnz (or_intror X))).
   cbn [flat_map]. unfold dq_char at 1.
   destruct (N.eqb_spec c cDQ) as [->|Hq].
   - apply (BEsc CDQ pw cDQ [cBS; cDQ]); [apply (EscSimple 34 34); cbv; tauto|apply IH].
@@ -219,12 +223,14 @@ Proof.
     + destruct (N.eqb_spec c cNL) as [->|Hn].
       * apply (BEsc CDQ pw cNL [cBS; 110]); [apply (EscSimple 110 10); cbv; tauto|apply IH].
       * apply (BLit CDQ pw c s (flat_map dq_char s)); [|apply IH].
-        cbn [lit_ok]. apply N.eqb_neq in Hq, Hb. rewrite Hq, Hb. reflexivity.
+        cbn [lit_ok]. apply N.eqb_neq in Hq, Hb. rewrite Hc0, Hq, Hb. reflexivity.
 Qed.
 
-Lemma sq_body s : forall pw, Body CSQ pw s (flat_map sq_char s).
+Lemma sq_body s : ~ In 0 s -> forall pw, Body CSQ pw s (flat_map sq_char s).
 Proof.
-  induction s as [|c s IH]; intros pw; [constructor|].
+  induction s as [|c s IH]; intros Hnz pw; [constructor|].
+  assert (Hc0 : (c =? 0) = false) by (apply N.eqb_neq; intros ->; apply Hnz; left; reflexivity).
+  specialize (IH (fun X => Hnz (or_intror X))).
   cbn [flat_map]. unfold sq_char at 1.
   destruct (N.eqb_spec c cSQ) as [->|Hq].
   - apply (BEsc CSQ pw cSQ [cBS; cSQ]); [apply (EscSimple 39 39); cbv; tauto|apply IH].
@@ -233,27 +239,27 @@ Proof.
     + destruct (N.eqb_spec c cNL) as [->|Hn].
       * apply (BEsc CSQ pw cNL [cBS; 110]); [apply (EscSimple 110 10); cbv; tauto|apply IH].
       * apply (BLit CSQ pw c s (flat_map sq_char s)); [|apply IH].
-        cbn [lit_ok]. apply N.eqb_neq in Hq, Hb. rewrite Hq, Hb. reflexivity.
+        cbn [lit_ok]. apply N.eqb_neq in Hq, Hb. rewrite Hc0, Hq, Hb. reflexivity.
 Qed.
 
-Theorem every_string_spellable s : Spells s (dq s) /\ Spells s (sq s).
+Theorem every_string_spellable s : ~ In 0 s -> Spells s (dq s) /\ Spells s (sq s).
 Proof.
-  unfold Spells, dq, sq. split.
+  intros Hnz. unfold Spells, dq, sq. split.
   - rewrite <- (app_nil_r s) at 1. change (flat_map dq_char s ++ [cDQ]) with (flat_map dq_char s ++ cDQ :: []).
-    apply VDQ; [apply dq_body|constructor].
+    apply VDQ; [apply dq_body; exact Hnz|constructor].
   - rewrite <- (app_nil_r s) at 1. change (flat_map sq_char s ++ [cSQ]) with (flat_map sq_char s ++ cSQ :: []).
-    apply VSQ; [apply sq_body|constructor].
+    apply VSQ; [apply sq_body; exact Hnz|constructor].
 Qed.
 
-Corollary canonical_read_back s : unquote_value (dq s) = Some s /\ unquote_value (sq s) = Some s.
-Proof. destruct (every_string_spellable s). split; apply spellings_read_back; assumption. Qed.
+Corollary canonical_read_back s : ~ In 0 s -> unquote_value (dq s) = Some s /\ unquote_value (sq s) = Some s.
+Proof. intros Hnz. destruct (every_string_spellable s Hnz). split; apply spellings_read_back; assumption. Qed.
 
 (* the pinned reader mis-reads a documented spelling: the other quote kind inside a quoted run *)
 Lemma pinned_refuted :
   Spells (s2l "sh -c 'exit 1'") (dq (s2l "sh -c 'exit 1'")) /\
   dq (s2l "sh -c 'exit 1'") = s2l """sh -c 'exit 1'""" /\
   unquote_value_pinned (s2l """sh -c 'exit 1'""") = Some (s2l "sh -c exit 1""").
-Proof. split; [apply every_string_spellable|]. split; vm_compute; reflexivity. Qed.
+Proof. split; [apply every_string_spellable; vm_compute; intuition discriminate|]. split; vm_compute; reflexivity. Qed.
 
 (* non-vacuity: a mixture of quoted and unquoted items with every escape family *)
 Example mixture :
